@@ -295,6 +295,13 @@ func C15(c *core.Ctx) {
 			}
 			desc += fmt.Sprintf(" %s:%v", m, ks)
 		}
+		oneToOne := true
+		for k := range all {
+			if i := strings.LastIndexByte(k, '.'); i < 0 || !injectiveComponentString[k[i+1:]] {
+				oneToOne = false
+			}
+		}
+		c.Decide(oneToOne, "R15.4", "memory-store-key-one-to-one", "-", "the child key is a one-to-one string form of the component:"+desc, "the in-memory store keys children by a string form of the component that is not one-to-one ("+desc+"; Component.String prints the numeric conventions by value, so 0x05 and 0x00 0x05 are one key): a packet stored under one name is served for another")
 		c.Decide(len(all) == 1 && len(keyFns) == 3, "R15.4", "memory-store-key-agreement", "-", "find, insert and remove all key children by the same function:"+desc, "the in-memory store's find/insert/remove derive the child key differently ("+desc+"): names whose two string forms differ are inserted under one key and removed (or looked up) under another, so removed packets are still served")
 	}
 	// ---- R15.5 Content(): the range that is returned is the range that is freed and skipped
